@@ -744,9 +744,13 @@ pub fn run(run: &'static Run) {
     );
     run.sub_with(
         "filtered",
-        Opts::default().chunk(64).watchdog(600.0),
+        // a truncated filter response leaves the filter protocol out of sync, which can block both sides for good
+        Opts::default().chunk(8).watchdog(120.0),
         |emit| {
-            for c in &filter_cases {
+            // simplest first: a single filtered entry, then two, ...
+            let mut ordered: Vec<&FilterCase> = filter_cases.iter().collect();
+            ordered.sort_by_key(|c| c.entries.len());
+            for c in ordered {
                 emit(c.clone());
             }
         },
